@@ -19,7 +19,8 @@ def items_of(content):
     out = []
     for d in tinycss2.parse_declaration_list(content, skip_whitespace=False, skip_comments=False):
         if isinstance(d, Declaration):
-            out.append(("D", d.name, d.lower_name, tinycss2.serialize(d.value), bool(d.important)))
+            out.append(("D", d.name, d.lower_name, tinycss2.serialize(d.value), bool(d.important),
+                        "".join(t.serialize() for t in d.value if t.type == "comment")))
         else:
             t, ok = _ser(d)
             out.append(("X", t, ok))
@@ -52,7 +53,7 @@ def enc_items(items):
     toks = []
     for it in items:
         if it[0] == "D":
-            toks += ["D", hx(it[1]), hx(it[2]), hx(it[3]), "1" if it[4] else "0"]
+            toks += ["D", hx(it[1]), hx(it[2]), hx(it[3]), "1" if it[4] else "0", hx(it[5])]
         else:
             toks += ["X", hx(it[1]), "1" if it[2] else "0"]
     return toks
@@ -81,7 +82,7 @@ def dec_nodes(toks, k):
             items = []
             for _ in range(n):
                 if toks[0] == "D":
-                    items.append(("D", unhex(toks[1]), unhex(toks[2]), unhex(toks[3]), toks[4] == "1")); toks = toks[5:]
+                    items.append(("D", unhex(toks[1]), unhex(toks[2]), unhex(toks[3]), toks[4] == "1", unhex(toks[5]))); toks = toks[6:]
                 else:
                     items.append(("X", unhex(toks[1]), toks[2] == "1")); toks = toks[3:]
             out.append(("R", sel, items))
